@@ -112,6 +112,11 @@ def check(ctx: Ctx) -> str:
     bl = repo.func("loaders:BaseLoader.load")
     s = ast.unparse(bl.node)
     ctx.check("source, filename, uptodate = self.get_source(environment, name)" in s and "from_code(environment, code, globals, uptodate)" in s, "BaseLoader.load:uptodate", "loaders:BaseLoader.load", "uptodate passed on", "BaseLoader.load must hand the loader's uptodate callable to from_code", bl.loc())
+    # ... on every path that builds a template (a shortcut for a bytecode-cache hit included)
+    fcs = [c for c in astq.calls(bl.node) if astq.callee(c).endswith(".from_code")]
+    upv = [t_.elts[2].id for a in ast.walk(bl.node) if isinstance(a, ast.Assign) and isinstance(a.value, ast.Call) and astq.callee(a.value) == "self.get_source" for t_ in a.targets if isinstance(t_, ast.Tuple) and len(t_.elts) == 3 and isinstance(t_.elts[2], ast.Name)]
+    ctx.check(bool(fcs) and len(upv) == 1 and all((len(c.args) >= 4 and ast.unparse(c.args[3]) == upv[0]) or any(k.arg == "uptodate" and ast.unparse(k.value) == upv[0] for k in c.keywords) for c in fcs), "BaseLoader.load:uptodate-all-paths", "loaders:BaseLoader.load", "a template is built without the loader's uptodate callable",
+              f"BaseLoader.load builds a template with {[ast.unparse(c)[:70] for c in fcs]}: every from_code call must receive the uptodate callable get_source returned, otherwise that template counts as current forever (auto_reload never reloads it, a deleted source is still served)", bl.loc())
     fs = repo.func("loaders:FileSystemLoader.get_source")
     updefs = [n for n in ast.walk(fs.node) if isinstance(n, ast.FunctionDef) and n is not fs.node]
     ctx.need(len(updefs) == 1, "FileSystemLoader.get_source uptodate closure not found")
